@@ -814,7 +814,7 @@ fn edge_case(ctx: &mut Ctx, idx: usize, files: &Files, forced: Option<usize>) {
     // road classes
     let with_classes = forced.is_none() && rng.chance(3, 5);
     let n_classes = 1 + rng.below(4);
-    let classes: Vec<u8> = (0..n).map(|_| rng.below(n_classes) as u8 + if rng.chance(1, 10) { 200 } else { 0 }).collect();
+    let classes: Vec<u8> = (0..n).map(|_| rng.below(n_classes) as u8 + if rng.chance(1, 10) { 252 } else { 0 }).collect();
     let cfile = if with_classes { Some(files.write("road_classes.txt", &classes.iter().map(|c| format!("{}\n", c)).collect::<String>())) } else { None };
     let mapping: Vec<(String, u8)> = if forced.is_none() && rng.chance(1, 3) { CLASS_NAMES.iter().enumerate().take(n_classes).map(|(i, s)| (s.to_string(), i as u8)).collect() } else { vec![] };
 
@@ -853,7 +853,7 @@ fn edge_case(ctx: &mut Ctx, idx: usize, files: &Files, forced: Option<usize>) {
     if forced.is_none() && rng.chance(3, 5) {
         let (v, b) = match rng.below(24) {
             0 => (json!([]), "edge_road_classes_empty"),
-            1 => (json!([300]), "edge_road_classes_out_of_u8"),
+            1 => (json!([*rng.pick(&[256u64, 300, 65536, 4294967296])]), "edge_road_classes_out_of_u8"),
             2 => (json!([-1, 0]), "edge_road_classes_negative"),
             3 => (json!([1.0, 0]), "edge_road_classes_float"),
             4 => (json!("primary"), "edge_road_classes_not_array"),
@@ -862,7 +862,7 @@ fn edge_case(ctx: &mut Ctx, idx: usize, files: &Files, forced: Option<usize>) {
             7 => (json!(["primary", 1]), "edge_road_classes_mixed"),
             _ => {
                 let k = 1 + rng.below(3);
-                let xs: Vec<u64> = (0..k).map(|_| if rng.chance(1, 10) { 200 + rng.below(4) as u64 } else { rng.below(n_classes + 1) as u64 }).collect();
+                let xs: Vec<u64> = (0..k).map(|_| if rng.chance(1, 10) { 252 + rng.below(4) as u64 } else { rng.below(n_classes + 1) as u64 }).collect();
                 (json!(xs), "edge_road_classes_ints")
             }
         };
